@@ -363,6 +363,9 @@ def concretize(spec, name, vals, top=True):
         tag = spec[0]
         if tag == "lit":
             return spec[1]
+        if tag == "strcat":
+            return "".join((vals.get("%s_%d" % (name, i)) if vals.get("%s_%d" % (name, i)) is not None else _DEFAULT_OF["str"]) if part == "str" else part
+                           for i, part in enumerate(spec[1]))
         if tag == "tuple":
             return tuple(concretize(sp, "%s_%d" % (name, i), vals, False) for i, sp in enumerate(spec[1]))
         if tag == "list":
@@ -488,6 +491,8 @@ def run_contracts(keys, budget=10, procs=16, only=None):
         for case in c.cases:
             if only and (key, case.name) not in only:
                 continue
+            if getattr(case, "tier", None) == "thorough" and os.environ.get("VERIF_TIER", "quick") != "thorough" and not only:
+                continue  # cases that cost minutes are part of the thorough tier only (stated in the contract)
             jobs.append((key, case.name, budget, 1))
     nproc = max(1, min(procs, len(jobs)))
     workers = max(2, procs // nproc)
